@@ -335,6 +335,11 @@ class Sym:
         o = Sym.coerce(o)
         if o is None:
             return NotImplemented
+        if len(o.p) > 1 and self.p:
+            q = exact_quotient(self, o)
+            if q is not None:
+                _note_denominator(o)
+                return q
         return self * o.inverse()
 
     def __rtruediv__(self, o):
@@ -576,6 +581,64 @@ class Sym:
             else:
                 out.append(f"{c}*{body}")
         return " + ".join(out).replace("+ -", "- ")
+
+
+def _clear_negative(p: "Sym"):
+    """p * M with M the monomial that makes every exponent non-negative -> (poly, M as exponent dict)"""
+    low = {}
+    for m in p.p:
+        seen = set()
+        for a, e in m:
+            seen.add(a)
+            if e < low.get(a, 0):
+                low[a] = e
+    if not low:
+        return p, {}
+    shift = tuple(sorted((a, -e) for a, e in low.items()))
+    return p * Sym({shift: F1}), {a: -e for a, e in low.items()}
+
+
+def exact_quotient(p: "Sym", q: "Sym"):
+    """r with p == r*q as Laurent polynomials, or None.  (Multivariate division with a fixed
+    monomial order; used so that (L - L/n)/(n - 1) normalises to L/n.)"""
+    P, sp = _clear_negative(p)
+    Q, sq = _clear_negative(q)
+
+    order = sorted(P.atoms() | Q.atoms())
+
+    def lead(poly):  # pure lexicographic order on the exponent vectors: a monomial order
+        return max(poly.p.items(), key=lambda kv: tuple(dict(kv[0]).get(a, 0) for a in order))
+
+    lq_m, lq_c = lead(Q)
+    lq = dict(lq_m)
+    R = Sym()
+    rem = P
+    for _ in range(200):
+        if not rem.p:
+            break
+        lm, lc = lead(rem)
+        d = dict(lm)
+        for a, e in lq.items():
+            if d.get(a, 0) < e:
+                return None
+            d[a] -= e
+            if d[a] == 0:
+                del d[a]
+        t = Sym({tuple(sorted(d.items())): lc / lq_c})
+        R = R + t
+        rem = rem - t * Q
+    else:
+        return None
+    if rem.p:
+        return None
+    # p = P / Mp, q = Q / Mq  =>  p/q = (P/Q) * Mq / Mp
+    corr = {}
+    for a, e in sq.items():
+        corr[a] = corr.get(a, 0) + e
+    for a, e in sp.items():
+        corr[a] = corr.get(a, 0) - e
+    corr = tuple(sorted((a, e) for a, e in corr.items() if e))
+    return R * Sym({corr: F1}) if corr else R
 
 
 def _note_denominator(q: Sym):
